@@ -2,6 +2,8 @@
 REGENERATED on every run by harness/props/c20.py (pre_build) from
 pybrops/breed/arch/RecurrentSelectionBreedingProgram.py — do not edit.
 translation: ok
+locals of evolve: misc = loc 0
+locals of advance: misc = loc 100, mcfg = loc 101
 -/
 import PybropsModel.Model.Program
 
@@ -10,15 +12,16 @@ open Program
 
 def evolve : Schedule where
   evolvePre := [
+    .ngenDefault,
     .initIfNeeded
   ]
   evolveRep := [
     .incRep,
     .skip,
     .callReset,
-    .newMisc,
-    .call .evaluate [.genome, .geno, .pheno, .bval, .gmod, .misc] [.genome, .geno, .pheno, .bval, .gmod],
-    .log .initialize true [.genome, .geno, .pheno, .bval, .gmod, .misc],
+    .newDict (.loc 0),
+    .call .evaluate [(.genome, .genome), (.geno, .geno), (.pheno, .pheno), (.bval, .bval), (.gmod, .gmod), (.misc, (.loc 0))] [.genome, .geno, .pheno, .bval, .gmod],
+    .log .initialize true [(.genome, .genome), (.geno, .geno), (.pheno, .pheno), (.bval, .bval), (.gmod, .gmod), (.misc, (.loc 0))],
     .tick,
     .callAdvance
   ]
@@ -29,23 +32,23 @@ def evolve : Schedule where
     .copyStart .pheno 2,
     .copyStart .bval 3,
     .copyStart .gmod 4,
-    .resetT
+    .setT0
   ]
   advancePre := []
   advanceGen := [
     .skip,
-    .newMisc,
-    .call .pselect [.genome, .geno, .pheno, .bval, .gmod, .misc] [.mcfg, .genome, .geno, .pheno, .bval, .gmod],
-    .log .pselect false [.mcfg, .genome, .geno, .pheno, .bval, .gmod, .misc],
-    .newMisc,
-    .call .mate [.mcfg, .genome, .geno, .pheno, .bval, .gmod, .misc] [.genome, .geno, .pheno, .bval, .gmod],
-    .log .mate false [.mcfg, .genome, .geno, .pheno, .bval, .gmod, .misc],
-    .newMisc,
-    .call .evaluate [.genome, .geno, .pheno, .bval, .gmod, .misc] [.genome, .geno, .pheno, .bval, .gmod],
-    .log .evaluate false [.genome, .geno, .pheno, .bval, .gmod, .misc],
-    .newMisc,
-    .call .sselect [.genome, .geno, .pheno, .bval, .gmod, .misc] [.genome, .geno, .pheno, .bval, .gmod],
-    .log .sselect false [.genome, .geno, .pheno, .bval, .gmod, .misc],
+    .newDict (.loc 100),
+    .call .pselect [(.genome, .genome), (.geno, .geno), (.pheno, .pheno), (.bval, .bval), (.gmod, .gmod), (.misc, (.loc 100))] [(.loc 101), .genome, .geno, .pheno, .bval, .gmod],
+    .log .pselect false [(.mcfg, (.loc 101)), (.genome, .genome), (.geno, .geno), (.pheno, .pheno), (.bval, .bval), (.gmod, .gmod), (.misc, (.loc 100))],
+    .newDict (.loc 100),
+    .call .mate [(.mcfg, (.loc 101)), (.genome, .genome), (.geno, .geno), (.pheno, .pheno), (.bval, .bval), (.gmod, .gmod), (.misc, (.loc 100))] [.genome, .geno, .pheno, .bval, .gmod],
+    .log .mate false [(.mcfg, (.loc 101)), (.genome, .genome), (.geno, .geno), (.pheno, .pheno), (.bval, .bval), (.gmod, .gmod), (.misc, (.loc 100))],
+    .newDict (.loc 100),
+    .call .evaluate [(.genome, .genome), (.geno, .geno), (.pheno, .pheno), (.bval, .bval), (.gmod, .gmod), (.misc, (.loc 100))] [.genome, .geno, .pheno, .bval, .gmod],
+    .log .evaluate false [(.genome, .genome), (.geno, .geno), (.pheno, .pheno), (.bval, .bval), (.gmod, .gmod), (.misc, (.loc 100))],
+    .newDict (.loc 100),
+    .call .sselect [(.genome, .genome), (.geno, .geno), (.pheno, .pheno), (.bval, .bval), (.gmod, .gmod), (.misc, (.loc 100))] [.genome, .geno, .pheno, .bval, .gmod],
+    .log .sselect false [(.genome, .genome), (.geno, .geno), (.pheno, .pheno), (.bval, .bval), (.gmod, .gmod), (.misc, (.loc 100))],
     .tick
   ]
   advancePost := []
